@@ -229,7 +229,7 @@ def generate(tier, seed):
     full = all_histories(4 if tier == "quick" else 5)
     rng = random.Random(seed)
     for pname, spec in problems():
-        cfgs = CONFIGS if spec.get("objectives") else [{}]
+        cfgs = CONFIGS if spec.get("objectives") else [{}, {"debug": True}]
         for ci, cfg in enumerate(cfgs):
             if len(spec.get("objectives", [])) < 2 and cfg.get("optimize_priority") == "weight":
                 continue
